@@ -336,7 +336,7 @@ func bases(server string) []base {
 	pf := func(kids ...*vx.Node) *vx.Node { return vx.El(vdav.NSDAV, "propfind", kids...) }
 	propNames := vx.El(vdav.NSDAV, "prop", vx.El(vdav.NSDAV, "resourcetype"), vx.El(vdav.NSDAV, "getetag"), vx.El(vdav.NSDAV, "displayname"))
 	var l []base
-	paths := map[string][]string{"webdav": {"/", "/d", "/d/f", "/missing"}, "caldav": {"/", "/u/", home, collP, objICS, "/u/h/c/new.ics"}, "carddav": {"/", "/u/", home, collP, objVCF, "/u/h/c/new.vcf"}, "principal": {"/u/"}}[server]
+	paths := map[string][]string{"webdav": {"/", "/d", "/d/f", "/missing"}, "caldav": {"/", "/u/", home, collP, objICS, "/u/h/c/new.ics", objICS + "/extra", objICS + "/extra/deeper/", "/u/h/c/x/y/z/w/v"}, "carddav": {"/", "/u/", home, collP, objVCF, "/u/h/c/new.vcf", objVCF + "/extra", objVCF + "/extra/deeper/", "/u/h/c/x/y/z/w/v"}, "principal": {"/u/"}}[server]
 	for _, p := range paths {
 		l = append(l,
 			base{method: "PROPFIND", path: p, hdr: [][2]string{{"Content-Type", xmlCT}, {"Depth", "1"}}, doc: pf(propNames), kind: "propfind"},
